@@ -23,6 +23,16 @@ type MustWriteEntry struct {
 	Regions []string `json:"regions"`
 }
 
+// ctorTargets (SH-CTOR): constructors whose result must have every table
+// other methods index assigned on every successful return.
+var ctorTargets = map[string][]string{
+	"C09": {"sign/bdn.NewMask", "sign/cosi.NewMask"},
+	"C10": {"share/vss/pedersen.NewDealer", "share/vss/pedersen.NewVerifier", "share/vss/pedersen.newAggregator", "share/vss/pedersen.NewEmptyAggregator",
+		"share/vss/rabin.NewDealer", "share/vss/rabin.NewVerifier", "share/vss/rabin.newAggregator"},
+	"C11": {"share/dkg/pedersen.NewDistKeyHandler", "share/dkg/rabin.NewDistKeyGenerator"},
+	"C12": {"sign/dss.NewDSS"},
+}
+
 var mustWritePkgs = map[string][]string{
 	"C01": {"group/edwards25519", "group/edwards25519vartime", "group/p256", "group/mod", "pairing/bn256", "pairing/bn254",
 		"pairing/bls12381/kilic", "pairing/bls12381/circl", "pairing/bls12381/gnark"},
@@ -35,6 +45,8 @@ func mustWritePath(prop string) string {
 func mustWriteTargets(c *Ctx, p *core.Prog, prop string) []*ssa.Function {
 	var out []*ssa.Function
 	switch prop {
+	case "C09", "C10", "C11", "C12":
+		return nil
 	case "C04":
 		for _, it := range c.implTypes(p) {
 			if it.Kind == "xof" {
@@ -83,6 +95,15 @@ func computeMustWrites(c *Ctx, prop string) ([]MustWriteEntry, map[string]string
 	an := efx.NewAnalyzer(p)
 	var out []MustWriteEntry
 	pos := map[string]string{}
+	for _, name := range ctorTargets[prop] {
+		fn := p.Fn(name)
+		if fn == nil || len(fn.Blocks) == 0 {
+			continue
+		}
+		mw := an.MustWritesResult(fn)
+		out = append(out, MustWriteEntry{Func: name, Regions: mw.Sorted()})
+		pos[name] = p.FnPos(fn)
+	}
 	for _, fn := range mustWriteTargets(c, p, prop) {
 		if !hasReturn(fn) {
 			continue
